@@ -44,10 +44,13 @@ func (gw *groupWriter) close() error {
 		// don't print begin/end messages if there's no buffered entries
 		return nil
 	}
-	if _, err := io.WriteString(gw.writer, gw.begin); err != nil {
-		return err
-	}
-	gw.buff.WriteString(gw.end)
-	_, err := io.Copy(gw.writer, &gw.buff)
+	// Emit the whole block with a single write so that blocks of commands
+	// finishing at the same time cannot interleave.
+	block := make([]byte, 0, len(gw.begin)+gw.buff.Len()+len(gw.end))
+	block = append(block, gw.begin...)
+	block = append(block, gw.buff.Bytes()...)
+	block = append(block, gw.end...)
+	gw.buff.Reset()
+	_, err := gw.writer.Write(block)
 	return err
 }
